@@ -21,6 +21,25 @@ FUNC = (ast.FunctionDef, ast.AsyncFunctionDef)
 SCOPE = (ast.FunctionDef, ast.AsyncFunctionDef, ast.Lambda, ast.ClassDef)
 
 
+def _blocks(fn):
+    """Every statement list directly or indirectly inside fn's body that is not inside a nested def/class."""
+    out = []
+
+    def rec(stmts):
+        out.append(stmts)
+        for st in stmts:
+            if isinstance(st, (ast.FunctionDef, ast.AsyncFunctionDef, ast.ClassDef)):
+                continue
+            for f in ("body", "orelse", "finalbody"):
+                v = getattr(st, f, None)
+                if isinstance(v, list) and v and isinstance(v[0], ast.stmt):
+                    rec(v)
+            for h in getattr(st, "handlers", []) or []:
+                rec(h.body)
+    rec(fn.body)
+    return out
+
+
 class FileInfo:
     def __init__(self, rel: str, text: str):
         self.rel = rel
@@ -53,6 +72,7 @@ class FileInfo:
 
         new = ast.parse(self.text, filename=self.rel)      # fresh, un-annotated copy (no parent links -> cheap deep copies)
         inlined: set[str] = set()
+        self._undo_closure_renames(new)
 
         def process(container, owner_cls):
             for i, st in enumerate(container):
@@ -104,6 +124,38 @@ class FileInfo:
         self.defs = {}
         self._annotate()
         self.inlined_artefacts = {q for q, d in self.defs.items() if isinstance(d, ast.FunctionDef) and d.name in inlined and is_artefact(self.rel, d, nested=isinstance(getattr(d, '_p', None), (ast.FunctionDef, ast.If, ast.With, ast.Try, ast.For, ast.While)))}
+
+    def _undo_closure_renames(self, tree) -> None:
+        """A baseline closure (an anchor such as `_render_image.update_buffer`) that was merely renamed: when exactly one nested def of
+        the baseline is missing from a function and exactly one new nested def appeared in it, the new one is given the old name
+        (a consistent rename of a local function is behaviour-preserving; the rules then find their anchor and judge its body)."""
+        from .normalize import baseline_qualnames
+        base = baseline_qualnames().get(self.rel, set())
+        if not base:
+            return
+
+        def visit(container, prefix):
+            for st in container:
+                if isinstance(st, ast.ClassDef):
+                    visit(st.body, prefix + st.name + ".")
+                elif isinstance(st, FUNC):
+                    q = prefix + st.name
+                    if q not in base:
+                        continue
+                    want = {b.split(".")[-1] for b in base if b.startswith(q + ".") and "." not in b[len(q) + 1:]}
+                    have = [n for n in ast.walk(st) if isinstance(n, FUNC) and n is not st and any(n is x for blk in _blocks(st) for x in blk)]
+                    have_names = {n.name for n in have}
+                    missing = want - have_names
+                    extra = [n for n in have if n.name not in want]
+                    if len(missing) == 1 and len(extra) == 1:
+                        old, new_name = extra[0].name, next(iter(missing))
+                        if not any(isinstance(x, ast.Name) and x.id == new_name for x in ast.walk(st)):
+                            extra[0].name = new_name
+                            for x in ast.walk(st):
+                                if isinstance(x, ast.Name) and x.id == old:
+                                    x.id = new_name
+                    visit(st.body, q + ".")
+        visit(tree.body, "")
 
     def _annotate(self) -> None:
         tree = self.tree
